@@ -411,7 +411,10 @@ def same_id_cases():
     base = ["H\tVN:Z:2.0", "S\tA\t8\t*", "S\tB\t8\t*", "S\tC\t8\t*", "E\te1\tA+\tB+\t6\t8$\t0\t2\t*", "E\te2\tB+\tC+\t6\t8$\t0\t2\t*"]
     for first, second, want in (("O\tg\tA+ B+\txx:i:1", "O\tg\tC+\tyy:Z:q", ["A+", "B+", "C+"]), ("U\tg\tA B\txx:i:1", "U\tg\tC e1", ["A", "B", "C", "e1"]),
                                 ("O\tg\tA+", "U\tg\tB", None), ("U\tg\tA", "O\tg\tB+", None), ("S\tg\t8\t*", "U\tg\tB", None),
-                                ("O\tg\tA+ B+\txx:i:1", "O\tg\tC+\txx:i:2", None), ("U\tg\tA\txx:i:1", "U\tg\tB\txx:i:2", None)):
+                                ("O\tg\tA+ B+\txx:i:1", "O\tg\tC+\txx:i:2", None), ("U\tg\tA\txx:i:1", "U\tg\tB\txx:i:2", None),
+                                # a value that is false as a Boolean is a value: 5 and 0 contradict each other in both orders
+                                ("U\tg\tA\txx:i:5", "U\tg\tB\txx:i:0", None), ("U\tg\tA\txx:i:0", "U\tg\tB\txx:i:5", None),
+                                ("O\tg\tA+\txx:B:i,1", "O\tg\tB+\txx:J:[]", None)):
         g = gfapy.Gfa(base + [first], vlevel=1)
         before = state.snapshot(g)
         try:
